@@ -1,13 +1,679 @@
-//! C05 seeds, field inventory and entry points for "mpq" (stub: not built yet).
-use crate::seed::{Aux, Seed};
-use crate::worker::Runner;
+//! C05 seeds, field inventory and entry points for "mpq" (wow_mpq::Archive).
+//!
+//! Every seed is written by the library's own `ArchiveBuilder` into a scratch file and read back;
+//! the field inventory is located by an independent walk over the produced bytes (header, the
+//! encrypted hash/block tables, sector offset tables, HET/BET tables).
+//!
+//! Two post-build fix-ups exist because the builder and the reader of the crate disagree (both are
+//! reported as observations by the caller, neither touches /repo):
+//!   * the builder writes the V3 header positions as (HET, BET) while the reader (and the format)
+//!     has (BET, HET): as built, neither table loads. Seeds whose name ends in "-hetbet" have the
+//!     two 8-byte header fields swapped so that the reader reaches its HET/BET code;
+//!   * the builder fills the BET name hashes with Jenkins one-at-a-time while the reader verifies
+//!     them with hashlittle2: "-hetbet" seeds get the hash array rewritten with the reader's
+//!     function so that lookups resolve through HET/BET (bit-packed entry extraction).
+//! "v3-asbuilt" keeps the builder's output untouched. "v1-userdata" is a builder archive behind a
+//! hand-made 512-byte 'MPQ\x1B' user-data block (the builder cannot write one).
+use crate::seed::{Aux, Enc, Seed};
+use crate::worker::{errname, Runner};
+use wow_mpq::compression::flags as cf;
+use wow_mpq::crypto::{decrypt_block, encrypt_block, hash_string, hash_type, het_hash};
+use wow_mpq::{Archive, ArchiveBuilder, AttributesOption, FormatVersion, ListfileOption};
 
-pub fn seed_names(_thorough: bool) -> Vec<String> {
-    Vec::new()
+pub fn seed_names(thorough: bool) -> Vec<String> {
+    let mut v = vec!["v1-zlib-mixed".to_string(), "v2-crc-attrs".to_string(), "v4-hetbet".to_string()];
+    if thorough {
+        for n in ["v3-hetbet", "v3-asbuilt", "v1-bzip2", "v1-codecs", "v1-userdata", "v4-cmptables", "v1-pkware-asbuilt"] {
+            v.push(n.to_string());
+        }
+    }
+    v
 }
+
+// ------------------------------------------------------------------------------------------
+// deterministic file contents
+// ------------------------------------------------------------------------------------------
+
+fn lcg(x: &mut u32) -> u8 {
+    *x = x.wrapping_mul(1_664_525).wrapping_add(1_013_904_223);
+    (*x >> 24) as u8
+}
+
+/// compressible text with some variation
+fn text(n: usize, salt: u32) -> Vec<u8> {
+    let words = ["Interface\\", "Glues\\", "World\\Maps\\", "Azeroth", ".blp", ".m2", "Creature\\", "Textures\\", "\r\n"];
+    let mut x = 0x1234_5678u32 ^ salt;
+    let mut v = Vec::with_capacity(n + 16);
+    while v.len() < n {
+        let w = words[(lcg(&mut x) as usize) % words.len()];
+        v.extend_from_slice(w.as_bytes());
+    }
+    v.truncate(n);
+    v
+}
+
+/// incompressible bytes
+fn noise(n: usize, salt: u32) -> Vec<u8> {
+    let mut x = 0xCAFE_F00Du32 ^ salt;
+    (0..n).map(|_| lcg(&mut x)).collect()
+}
+
+/// long zero runs with islands of data
+fn sparse(n: usize) -> Vec<u8> {
+    let mut x = 77u32;
+    (0..n).map(|i| if i % 200 < 12 { lcg(&mut x) | 1 } else { 0 }).collect()
+}
+
+/// 16-bit PCM-like samples
+fn wave(n: usize) -> Vec<u8> {
+    let mut v = Vec::with_capacity(n);
+    let mut i = 0i32;
+    while v.len() + 2 <= n {
+        // triangle wave with a slow drift
+        let p = (i % 64 - 32).abs() * 400 - 6000 + (i / 7) % 50;
+        v.extend_from_slice(&(p as i16).to_le_bytes());
+        i += 1;
+    }
+    v.resize(n, 0);
+    v
+}
+
+// ------------------------------------------------------------------------------------------
+// seed specifications
+// ------------------------------------------------------------------------------------------
+
+#[derive(Clone, Copy, PartialEq)]
+enum Crypt {
+    No,
+    Key,
+    FixKey,
+}
+
+struct F {
+    name: &'static str,
+    data: Vec<u8>,
+    comp: u8,
+    crypt: Crypt,
+}
+
+fn f(name: &'static str, data: Vec<u8>, comp: u8, crypt: Crypt) -> F {
+    F { name, data, comp, crypt }
+}
+
+struct Spec {
+    ver: FormatVersion,
+    shift: u16,
+    files: Vec<F>,
+    attrs: bool,
+    compress_tables: bool,
+    userdata: bool,
+    fix_hetbet: bool,
+    /// list every block entry (otherwise the first two and the last)
+    all_blocks: bool,
+}
+
+const ABSENT: &str = "no\\such\\file.bin";
+
+fn mixed_files(comp: u8) -> Vec<F> {
+    vec![
+        f("big.bin", text(2900, 1), comp, Crypt::No),
+        f("small.txt", text(300, 2), comp, Crypt::No),
+        f("stored.dat", noise(200, 3), 0, Crypt::No),
+        f("enc.bin", text(1700, 4), comp, Crypt::Key),
+        f("dir\\fix.bin", text(1300, 5), comp, Crypt::FixKey),
+        f("encsmall.txt", text(260, 6), comp, Crypt::Key),
+        f("encstored.dat", noise(100, 7), 0, Crypt::FixKey),
+        f("noisy.bin", noise(1100, 8), comp, Crypt::No),
+    ]
+}
+
+fn spec(name: &str) -> Spec {
+    let base = Spec {
+        ver: FormatVersion::V1,
+        shift: 0,
+        files: Vec::new(),
+        attrs: false,
+        compress_tables: false,
+        userdata: false,
+        fix_hetbet: false,
+        all_blocks: false,
+    };
+    match name {
+        "v1-zlib-mixed" => Spec { files: mixed_files(cf::ZLIB), all_blocks: true, ..base },
+        "v2-crc-attrs" => Spec {
+            ver: FormatVersion::V2,
+            attrs: true,
+            files: vec![
+                f("big.bin", text(2100, 11), cf::ZLIB, Crypt::No),
+                f("small.txt", text(280, 12), cf::ZLIB, Crypt::No),
+                f("enc.bin", text(1500, 13), cf::ZLIB, Crypt::FixKey),
+                f("stored.dat", noise(150, 14), 0, Crypt::No),
+            ],
+            ..base
+        },
+        "v3-hetbet" | "v3-asbuilt" => Spec {
+            ver: FormatVersion::V3,
+            fix_hetbet: name == "v3-hetbet",
+            files: vec![
+                f("big.bin", text(2300, 21), cf::ZLIB, Crypt::No),
+                f("small.txt", text(290, 22), cf::ZLIB, Crypt::No),
+                f("enc.bin", text(1200, 23), cf::ZLIB, Crypt::Key),
+                f("stored.dat", noise(120, 24), 0, Crypt::No),
+            ],
+            ..base
+        },
+        "v4-hetbet" | "v4-cmptables" => Spec {
+            ver: FormatVersion::V4,
+            fix_hetbet: true,
+            attrs: name == "v4-hetbet",
+            compress_tables: name == "v4-cmptables",
+            files: vec![
+                f("big.bin", text(2200, 31), cf::ZLIB, Crypt::No),
+                f("small.txt", text(270, 32), cf::ZLIB, Crypt::No),
+                f("fix.bin", text(1100, 33), cf::ZLIB, Crypt::FixKey),
+                f("stored.dat", noise(90, 34), 0, Crypt::No),
+                f("Sound\\tone.wav", wave(700), cf::ZLIB, Crypt::No),
+            ],
+            ..base
+        },
+        "v1-bzip2" => Spec { shift: 1, files: mixed_files(cf::BZIP2), ..base },
+        "v1-codecs" => Spec {
+            shift: 1,
+            all_blocks: true,
+            files: vec![
+                f("lzma.bin", text(2600, 41), cf::LZMA, Crypt::No),
+                f("lzma-small.txt", text(500, 42), cf::LZMA, Crypt::No),
+                f("sparse.bin", sparse(2500), cf::SPARSE, Crypt::No),
+                f("adpcm-mono.wav", wave(2200), cf::ADPCM_MONO, Crypt::No),
+                f("adpcm-stereo.wav", wave(900), cf::ADPCM_STEREO, Crypt::No),
+                f("adpcm-zlib.wav", wave(2100), cf::ADPCM_MONO | cf::ZLIB, Crypt::No),
+            ],
+            ..base
+        },
+        // The builder compresses PKWARE in ASCII mode, which the reader's exploder does not
+        // implement (unimplemented!() in implode-0.1.1): read_file panics on the UNMUTATED seed.
+        "v1-pkware-asbuilt" => Spec {
+            shift: 1,
+            all_blocks: true,
+            files: vec![
+                f("pkware.bin", text(2400, 43), cf::PKWARE, Crypt::No),
+                f("pkware-small.txt", text(600, 44), cf::PKWARE, Crypt::Key),
+            ],
+            ..base
+        },
+        "v1-userdata" => Spec {
+            userdata: true,
+            files: vec![
+                f("big.bin", text(1900, 51), cf::ZLIB, Crypt::No),
+                f("small.txt", text(250, 52), cf::ZLIB, Crypt::No),
+                f("fix.bin", text(1250, 53), cf::ZLIB, Crypt::FixKey),
+            ],
+            ..base
+        },
+        _ => wverif_common::tool_error(&format!("mpq: unknown seed {name}")),
+    }
+}
+
+// ------------------------------------------------------------------------------------------
+// reading the produced bytes
+// ------------------------------------------------------------------------------------------
+
+fn r32(b: &[u8], o: usize) -> u32 {
+    u32::from_le_bytes([b[o], b[o + 1], b[o + 2], b[o + 3]])
+}
+fn r64(b: &[u8], o: usize) -> u64 {
+    r32(b, o) as u64 | (r32(b, o + 4) as u64) << 32
+}
+fn w64(b: &mut [u8], o: usize, v: u64) {
+    b[o..o + 8].copy_from_slice(&v.to_le_bytes());
+}
+
+fn words(b: &[u8], start: usize, len: usize) -> Vec<u32> {
+    b[start..start + len].chunks_exact(4).map(|c| u32::from_le_bytes([c[0], c[1], c[2], c[3]])).collect()
+}
+
+/// plaintext of an encrypted region (len is cut down to whole words)
+fn plain(b: &[u8], start: usize, len: usize, key: u32) -> Vec<u8> {
+    let mut w = words(b, start, len & !3);
+    decrypt_block(&mut w, key);
+    w.iter().flat_map(|x| x.to_le_bytes()).collect()
+}
+
+/// keystream bytes the crate's table/file encryption applies to the 1..3 bytes behind the last
+/// whole word (a single dword encrypted with key + number of whole words)
+fn tail_stream(nwords: usize, key: u32) -> [u8; 4] {
+    let mut z = [0u32];
+    encrypt_block(&mut z, key.wrapping_add(nwords as u32));
+    z[0].to_le_bytes()
+}
+
+/// plaintext of a whole encrypted table including the unaligned tail
+fn plain_full(b: &[u8], start: usize, len: usize, key: u32) -> Vec<u8> {
+    let mut p = plain(b, start, len, key);
+    let ks = tail_stream(len / 4, key);
+    for k in 0..len % 4 {
+        p.push(b[start + (len & !3) + k] ^ ks[k]);
+    }
+    p
+}
+
+fn store_encrypted(b: &mut [u8], start: usize, plain: &[u8], key: u32) {
+    let whole = plain.len() & !3;
+    let mut w: Vec<u32> = plain[..whole].chunks_exact(4).map(|c| u32::from_le_bytes([c[0], c[1], c[2], c[3]])).collect();
+    encrypt_block(&mut w, key);
+    for (i, x) in w.iter().enumerate() {
+        b[start + 4 * i..start + 4 * i + 4].copy_from_slice(&x.to_le_bytes());
+    }
+    let ks = tail_stream(whole / 4, key);
+    for k in 0..plain.len() % 4 {
+        b[start + whole + k] = plain[whole + k] ^ ks[k];
+    }
+}
+
+fn scratch_path(name: &str) -> std::path::PathBuf {
+    let base = std::env::var("VERIF_SCRATCH").or_else(|_| std::env::var("TMPDIR")).unwrap_or_else(|_| "/var/tmp".into());
+    let t = format!("{:?}", std::thread::current().id());
+    let t: String = t.chars().filter(|c| c.is_ascii_digit()).collect();
+    std::path::PathBuf::from(base).join(format!("c05-mpqseed-{}-{}-{}.mpq", std::process::id(), t, name))
+}
+
+fn build_bytes(name: &str, sp: &Spec) -> Vec<u8> {
+    let mut b = ArchiveBuilder::new()
+        .version(sp.ver)
+        .block_size(sp.shift)
+        .listfile_option(ListfileOption::Generate)
+        .compress_tables(sp.compress_tables);
+    if sp.attrs {
+        b = b.attributes_option(AttributesOption::GenerateCrc32);
+    } else {
+        b = b.attributes_option(AttributesOption::None);
+    }
+    for fl in &sp.files {
+        b = match fl.crypt {
+            Crypt::No => b.add_file_data_with_options(fl.data.clone(), fl.name, fl.comp, false, 0),
+            Crypt::Key => b.add_file_data_with_encryption(fl.data.clone(), fl.name, fl.comp, false, 0),
+            Crypt::FixKey => b.add_file_data_with_encryption(fl.data.clone(), fl.name, fl.comp, true, 0),
+        };
+    }
+    let p = scratch_path(name);
+    if let Err(e) = b.build(&p) {
+        wverif_common::tool_error(&format!("mpq: ArchiveBuilder failed for seed {name}: {e:?}"));
+    }
+    let bytes = std::fs::read(&p).unwrap_or_else(|e| wverif_common::tool_error(&format!("mpq: read back {p:?}: {e}")));
+    let _ = std::fs::remove_file(&p);
+    bytes
+}
+
+struct Blk {
+    pos: usize,
+    csize: usize,
+    fsize: usize,
+    flags: u32,
+}
+
+const FLAG_COMPRESS: u32 = 0x0000_0200;
+const FLAG_ENCRYPTED: u32 = 0x0001_0000;
+const FLAG_FIX_KEY: u32 = 0x0002_0000;
+const FLAG_SINGLE_UNIT: u32 = 0x0100_0000;
+const FLAG_SECTOR_CRC: u32 = 0x0400_0000;
 
 pub fn build(name: &str) -> Seed {
-    wverif_common::tool_error(&format!("mpq: unknown seed {name}"))
+    let sp = spec(name);
+    let mut bytes = build_bytes(name, &sp);
+    let hash_key = hash_string("(hash table)", hash_type::FILE_KEY);
+    let block_key = hash_string("(block table)", hash_type::FILE_KEY);
+    let v = sp.ver as u16;
+
+    // ---- post-build fix-ups (see the module comment) -----------------------------------------
+    // positions as the builder meant them
+    let (mut het_pos, mut bet_pos) = (0usize, 0usize);
+    if v >= 2 {
+        for o in [52usize, 60] {
+            let p = r64(&bytes, o) as usize;
+            if p + 4 <= bytes.len() {
+                match &bytes[p..p + 4] {
+                    b"HET\x1A" => het_pos = p,
+                    b"BET\x1A" => bet_pos = p,
+                    _ => {}
+                }
+            }
+        }
+        if het_pos == 0 || bet_pos == 0 {
+            wverif_common::tool_error(&format!("mpq: seed {name}: HET/BET tables not found where the header says"));
+        }
+    }
+    let hash_pos0 = r32(&bytes, 16) as usize;
+    // on-disk sizes of the HET / BET tables (they are written back to back before the hash table)
+    let het_size = bet_pos.saturating_sub(het_pos);
+    let bet_size = hash_pos0.saturating_sub(bet_pos);
+    if v >= 2 && sp.fix_hetbet {
+        // the reader takes offset 52 as the BET and offset 60 as the HET position
+        w64(&mut bytes, 52, bet_pos as u64);
+        w64(&mut bytes, 60, het_pos as u64);
+        if !sp.compress_tables {
+            // BET name hashes := the reader's hash function
+            let mut pl = plain_full(&bytes, bet_pos + 12, bet_size - 12, block_key);
+            let g = |i: usize| r32(&pl, 4 * i) as usize;
+            let (file_count, entry_bits, hash_bits, flag_count) = (g(1), g(3), g(16), g(18));
+            let ho = 76 + 4 * flag_count + (file_count * entry_bits).div_ceil(8);
+            let mut names: Vec<&str> = sp.files.iter().map(|f| f.name).collect();
+            names.push("(listfile)");
+            if sp.attrs {
+                names.push("(attributes)");
+            }
+            if hash_bits != 64 || names.len() != file_count || ho + 8 * file_count > pl.len() {
+                wverif_common::tool_error(&format!("mpq: seed {name}: unexpected BET layout fc={file_count} eb={entry_bits} hb={hash_bits} flc={flag_count} ho={ho} pl={} names={}", pl.len(), names.len()));
+            }
+            for (i, n) in names.iter().enumerate() {
+                let h = het_hash(n, 64).0;
+                pl[ho + 8 * i..ho + 8 * i + 8].copy_from_slice(&h.to_le_bytes());
+            }
+            store_encrypted(&mut bytes, bet_pos + 12, &pl, block_key);
+        }
+        if v == 3 {
+            // keep the V4 header self-consistent: MD5 of the BET table and of the header
+            let m = wverif_common::md5_raw(&bytes[bet_pos..bet_pos + bet_size]);
+            bytes[112 + 48..112 + 64].copy_from_slice(&m);
+            let m = wverif_common::md5_raw(&bytes[..192]);
+            bytes[192..208].copy_from_slice(&m);
+        }
+    }
+    let a = if sp.userdata { 512usize } else { 0 };
+    if sp.userdata {
+        let mut u = Vec::with_capacity(512 + bytes.len());
+        u.extend_from_slice(b"MPQ\x1B");
+        u.extend_from_slice(&496u32.to_le_bytes()); // user_data_size
+        u.extend_from_slice(&512u32.to_le_bytes()); // header_offset
+        u.extend_from_slice(&16u32.to_le_bytes()); // user_data_header_size
+        u.extend_from_slice(&text(496, 99));
+        u.extend_from_slice(&bytes);
+        bytes = u;
+    }
+
+    // ---- inventory ---------------------------------------------------------------------------
+    let hash_pos = a + r32(&bytes, a + 16) as usize;
+    let block_pos = a + r32(&bytes, a + 20) as usize;
+    let hash_n = r32(&bytes, a + 24) as usize;
+    let block_n = r32(&bytes, a + 28) as usize;
+    let sector = 512usize << sp.shift;
+    let hash_plain = plain(&bytes, hash_pos, 16 * hash_n, hash_key);
+    let block_plain = plain(&bytes, block_pos, 16 * block_n, block_key);
+    let blocks: Vec<Blk> = (0..block_n)
+        .map(|i| Blk {
+            pos: a + r32(&block_plain, 16 * i) as usize,
+            csize: r32(&block_plain, 16 * i + 4) as usize,
+            fsize: r32(&block_plain, 16 * i + 8) as usize,
+            flags: r32(&block_plain, 16 * i + 12),
+        })
+        .collect();
+
+    let mut s = Seed::new("mpq", name, bytes);
+    let len = s.bytes.len();
+    if sp.userdata {
+        s.field_ex(0, 4, "tag", "user.signature", 16, 1, None);
+        s.field_ex(4, 4, "bsize", "user.user_data_size", 16, 1, None);
+        s.field_ex(8, 4, "offset", "user.header_offset", 0, 1, None);
+        s.field_ex(12, 4, "bsize", "user.user_data_header_size", 0, 1, None);
+    }
+    s.field_ex(a, 4, "tag", "hdr.signature", a + 32, 1, None);
+    s.field_ex(a + 4, 4, "bsize", "hdr.header_size", a, 1, None);
+    s.field_ex(a + 8, 4, "bsize", "hdr.archive_size", a, 1, None);
+    s.field_ex(a + 12, 2, "index", "hdr.format_version", a + 32, 1, None);
+    s.field_ex(a + 14, 2, "shift", "hdr.block_size", a + 32, 1, None);
+    s.field_ex(a + 16, 4, "offset", "hdr.hash_table_pos", a, 1, None);
+    s.field_ex(a + 20, 4, "offset", "hdr.block_table_pos", a, 1, None);
+    s.field_ex(a + 24, 4, "count", "hdr.hash_table_size", hash_pos, 16, None);
+    s.field_ex(a + 28, 4, "count", "hdr.block_table_size", block_pos, 16, None);
+    if v >= 1 {
+        s.field_ex(a + 32, 8, "offset", "hdr.hi_block_table_pos", a, 1, None);
+        s.field_ex(a + 40, 2, "offset", "hdr.hash_table_pos_hi", a, 1, None);
+        s.field_ex(a + 42, 2, "offset", "hdr.block_table_pos_hi", a, 1, None);
+    }
+    if v >= 2 {
+        s.field_ex(a + 44, 8, "bsize", "hdr.archive_size_64", a, 1, None);
+        // named as the reader interprets them
+        s.field_ex(a + 52, 8, "offset", "hdr.bet_table_pos", a, 1, None);
+        s.field_ex(a + 60, 8, "offset", "hdr.het_table_pos", a, 1, None);
+    }
+    if v >= 3 {
+        s.field_ex(a + 68, 8, "bsize", "hdr.hash_table_size_64", hash_pos, 1, None);
+        s.field_ex(a + 76, 8, "bsize", "hdr.block_table_size_64", block_pos, 1, None);
+        s.field_ex(a + 84, 8, "bsize", "hdr.hi_block_table_size_64", len, 1, None);
+        s.field_ex(a + 92, 8, "bsize", "hdr.het_table_size_64", a + het_pos, 1, None);
+        s.field_ex(a + 100, 8, "bsize", "hdr.bet_table_size_64", a + bet_pos, 1, None);
+        s.field_ex(a + 108, 4, "bsize", "hdr.raw_chunk_size", a, 1, None);
+    }
+
+    // hash table: the first two and the last occupied entries and the first free one
+    let henc = Enc { start: hash_pos, len: 16 * hash_n, key: hash_key };
+    let occupied: Vec<usize> = (0..hash_n).filter(|i| r32(&hash_plain, 16 * i + 12) < 0xFFFF_FFFE).collect();
+    let mut pick: Vec<usize> = occupied.iter().take(2).cloned().collect();
+    if let Some(l) = occupied.last() {
+        pick.push(*l);
+    }
+    if let Some(fr) = (0..hash_n).find(|i| !occupied.contains(i)) {
+        pick.push(fr);
+    }
+    pick.sort();
+    pick.dedup();
+    for i in pick {
+        let o = hash_pos + 16 * i;
+        s.field_ex(o + 8, 2, "index", format!("hash[{i}].locale"), o + 16, 1, Some(henc.clone()));
+        s.field_ex(o + 10, 2, "index", format!("hash[{i}].platform"), o + 16, 1, Some(henc.clone()));
+        s.field_ex(o + 12, 4, "index", format!("hash[{i}].block_index"), block_pos, 16, Some(henc.clone()));
+    }
+
+    // block table
+    let benc = Enc { start: block_pos, len: 16 * block_n, key: block_key };
+    for i in 0..block_n {
+        if !(sp.all_blocks || i < 2 || i + 1 == block_n) {
+            continue;
+        }
+        let o = block_pos + 16 * i;
+        let fp = blocks[i].pos;
+        s.field_ex(o, 4, "offset", format!("block[{i}].file_pos"), a, 1, Some(benc.clone()));
+        s.field_ex(o + 4, 4, "bsize", format!("block[{i}].compressed_size"), fp, 1, Some(benc.clone()));
+        s.field_ex(o + 8, 4, "bsize", format!("block[{i}].file_size"), fp, 1, Some(benc.clone()));
+        s.field_ex(o + 12, 4, "index", format!("block[{i}].flags"), o + 16, 1, Some(benc.clone()));
+    }
+    if v >= 1 && r64(&s.bytes, a + 32) != 0 {
+        // not produced by the builder for small archives; kept for completeness
+        let hp = a + r64(&s.bytes, a + 32) as usize;
+        if hp + 2 <= len {
+            s.field_ex(hp, 2, "offset", "hiblock[0]", a, 1, None);
+        }
+    }
+
+    // per-file structures: sector offset tables and compression method bytes
+    let mut names: Vec<String> = sp.files.iter().map(|f| f.name.to_string()).collect();
+    names.push("(listfile)".into());
+    if sp.attrs {
+        names.push("(attributes)".into());
+    }
+    let mut budget_sectored = 3; // files whose sector tables are listed
+    let mut budget_single = 3;
+    for (i, nm) in names.iter().enumerate() {
+        if i >= blocks.len() {
+            break;
+        }
+        let b = &blocks[i];
+        let special = nm.starts_with('(');
+        if special && nm == "(attributes)" {
+            s.field_ex(b.pos, 4, "index", "attr.version", b.pos + 8, 1, None);
+            s.field_ex(b.pos + 4, 4, "index", "attr.flags", b.pos + 8, 4, None);
+            continue;
+        }
+        let key = if b.flags & FLAG_ENCRYPTED != 0 {
+            let k = hash_string(nm, hash_type::FILE_KEY);
+            if b.flags & FLAG_FIX_KEY != 0 {
+                k.wrapping_add((b.pos - a) as u32) ^ b.fsize as u32
+            } else {
+                k
+            }
+        } else {
+            0
+        };
+        let want_all = sp.all_blocks;
+        if b.flags & FLAG_SINGLE_UNIT != 0 {
+            if b.flags & FLAG_COMPRESS == 0 || b.csize >= b.fsize {
+                continue;
+            }
+            if !want_all && (special || budget_single == 0) {
+                continue;
+            }
+            budget_single -= 1;
+            let enc = if key != 0 { Some(Enc { start: b.pos, len: b.csize & !3, key }) } else { None };
+            if key != 0 && b.csize < 4 {
+                continue;
+            }
+            s.field_ex(b.pos, 1, "index", format!("file[{nm}].method"), b.pos + 1, 1, enc);
+            if b.flags & FLAG_SECTOR_CRC != 0 && b.pos + b.csize + 4 <= len {
+                s.field_ex(b.pos + b.csize, 4, "index", format!("file[{nm}].crc"), b.pos + b.csize + 4, 1, None);
+            }
+        } else if b.flags & FLAG_COMPRESS != 0 {
+            if !want_all && (special || budget_sectored == 0) {
+                continue;
+            }
+            budget_sectored -= 1;
+            let n = b.fsize.div_ceil(sector);
+            let tl = 4 * (n + 1);
+            let tab: Vec<u32> = if key != 0 {
+                let p = plain(&s.bytes, b.pos, tl, key.wrapping_sub(1));
+                (0..=n).map(|k| r32(&p, 4 * k)).collect()
+            } else {
+                (0..=n).map(|k| r32(&s.bytes, b.pos + 4 * k)).collect()
+            };
+            let tenc = if key != 0 { Some(Enc { start: b.pos, len: tl, key: key.wrapping_sub(1) }) } else { None };
+            for k in 0..=n {
+                if k < 2 || k == n {
+                    s.field_ex(b.pos + 4 * k, 4, "offset", format!("file[{nm}].sector[{k}]"), b.pos, 1, tenc.clone());
+                }
+            }
+            // the method byte of the first compressed sector
+            for k in 0..n {
+                let (st, en) = (tab[k] as usize, tab[k + 1] as usize);
+                let expect = (b.fsize - k * sector).min(sector);
+                if en > st && en - st < expect && b.pos + en <= len {
+                    let sl = en - st;
+                    if key != 0 && sl < 4 {
+                        continue;
+                    }
+                    let enc = if key != 0 { Some(Enc { start: b.pos + st, len: sl & !3, key: key.wrapping_add(k as u32) }) } else { None };
+                    s.field_ex(b.pos + st, 1, "index", format!("file[{nm}].sector[{k}].method"), b.pos + st + 1, 1, enc);
+                    break;
+                }
+            }
+        }
+    }
+
+    // HET / BET
+    if v >= 2 {
+        let (hp, bp) = (a + het_pos, a + bet_pos);
+        s.field_ex(hp, 4, "tag", "het.signature", hp + 12, 1, None);
+        s.field_ex(hp + 4, 4, "index", "het.version", hp + 12, 1, None);
+        s.field_ex(hp + 8, 4, "bsize", "het.data_size", hp + 12, 1, None);
+        s.field_ex(bp, 4, "tag", "bet.signature", bp + 12, 1, None);
+        s.field_ex(bp + 4, 4, "index", "bet.version", bp + 12, 1, None);
+        s.field_ex(bp + 8, 4, "bsize", "bet.data_size", bp + 12, 1, None);
+        if sp.compress_tables {
+            // the table bodies are compressed, then encrypted: only the method byte is addressable
+            let he = Enc { start: hp + 12, len: (het_size - 12) & !3, key: hash_key };
+            let be = Enc { start: bp + 12, len: (bet_size - 12) & !3, key: block_key };
+            s.field_ex(hp + 12, 1, "index", "het.method", hp + 13, 1, Some(he));
+            s.field_ex(bp + 12, 1, "index", "bet.method", bp + 13, 1, Some(be));
+        } else if sp.fix_hetbet {
+            // (as built, the tables never load: their inner fields would be dead weight)
+            let he = Enc { start: hp + 12, len: (het_size - 12) & !3, key: hash_key };
+            let hd = hp + 12;
+            let hpl = plain(&s.bytes, hd, het_size - 12, hash_key);
+            let het_entries = r32(&hpl, 8) as usize;
+            let hf: [(&str, &'static str, usize, usize); 8] = [
+                ("table_size", "bsize", hp, 1),
+                ("max_file_count", "count", hd + 32 + het_entries, 1),
+                ("hash_table_size", "count", hd + 32, 1),
+                ("hash_entry_size", "shift", hd + 32, 1),
+                ("total_index_size", "bsize", hd + 32 + het_entries, 1),
+                ("index_size_extra", "shift", hd + 32, 1),
+                ("index_size", "shift", hd + 32 + het_entries, 1),
+                ("block_table_size", "bsize", hd + 32, 1),
+            ];
+            for (k, (n, role, base, unit)) in hf.iter().enumerate() {
+                s.field_ex(hd + 4 * k, 4, role, format!("het.{n}"), *base, *unit, Some(he.clone()));
+            }
+            // one occupied 8-bit name hash slot and the first byte of the packed index array
+            if let Some(slot) = (0..het_entries).find(|k| hpl[32 + k] != 0xFF) {
+                s.field_ex(hd + 32 + slot, 1, "index", format!("het.hash[{slot}]"), hd + 32 + het_entries, 1, Some(he.clone()));
+            }
+            if 32 + het_entries < hpl.len() {
+                s.field_ex(hd + 32 + het_entries, 1, "index", "het.index_bits[0]", hd + 32 + het_entries, 1, Some(he.clone()));
+            }
+
+            let be = Enc { start: bp + 12, len: (bet_size - 12) & !3, key: block_key };
+            let bd = bp + 12;
+            let bpl = plain(&s.bytes, bd, bet_size - 12, block_key);
+            let flag_count = r32(&bpl, 72) as usize;
+            let ftab = bd + 76 + 4 * flag_count;
+            let bf: [(&str, &'static str, usize, usize); 19] = [
+                ("table_size", "bsize", bp, 1),
+                ("file_count", "count", ftab, (r32(&bpl, 12) as usize).div_ceil(8).max(1)),
+                ("unknown_08", "index", bd + 76, 1),
+                ("table_entry_size", "shift", ftab, 1),
+                ("bit_index_file_pos", "shift", ftab, 1),
+                ("bit_index_file_size", "shift", ftab, 1),
+                ("bit_index_cmp_size", "shift", ftab, 1),
+                ("bit_index_flag_index", "shift", ftab, 1),
+                ("bit_index_unknown", "shift", ftab, 1),
+                ("bit_count_file_pos", "shift", ftab, 1),
+                ("bit_count_file_size", "shift", ftab, 1),
+                ("bit_count_cmp_size", "shift", ftab, 1),
+                ("bit_count_flag_index", "shift", ftab, 1),
+                ("bit_count_unknown", "shift", ftab, 1),
+                ("total_bet_hash_size", "bsize", ftab, 1),
+                ("bet_hash_size_extra", "shift", ftab, 1),
+                ("bet_hash_size", "shift", ftab, 1),
+                ("bet_hash_array_size", "bsize", ftab, 1),
+                ("flag_count", "count", bd + 76, 4),
+            ];
+            for (k, (n, role, base, unit)) in bf.iter().enumerate() {
+                s.field_ex(bd + 4 * k, 4, role, format!("bet.{n}"), *base, *unit, Some(be.clone()));
+            }
+            for k in 0..flag_count {
+                if k == 0 || k + 1 == flag_count {
+                    s.field_ex(bd + 76 + 4 * k, 4, "index", format!("bet.flags[{k}]"), ftab, 1, Some(be.clone()));
+                }
+            }
+            // the first word of the bit-packed file table (file_pos / file_size of entry 0)
+            if ftab + 4 <= bd + ((bet_size - 12) & !3) {
+                let fo = (ftab - bd) & !3;
+                s.field_ex(bd + fo, 4, "offset", "bet.entry_bits[0]", a, 1, Some(be.clone()));
+            }
+        }
+    }
+
+    names.push(ABSENT.to_string());
+    s.aux = Aux::Names(names);
+    s
 }
 
-pub fn run(_r: &mut Runner, _bytes: &[u8], _aux: &Aux) {}
+pub fn run(r: &mut Runner, bytes: &[u8], aux: &Aux) {
+    let path = r.file(bytes);
+    let ar = r.call("Archive::open", || Archive::open(&path).map_err(errname));
+    if let Some(mut ar) = ar {
+        r.call("Archive::get_info", || ar.get_info().map(|_| ()).map_err(errname));
+        let listed = r.call("Archive::list", || ar.list().map(|v| v.into_iter().map(|e| e.name).collect::<Vec<String>>()).map_err(errname));
+        let mut names: Vec<String> = Vec::new();
+        if let Aux::Names(v) = aux {
+            names.extend(v.iter().cloned());
+        }
+        for n in listed.unwrap_or_default() {
+            if !names.contains(&n) {
+                names.push(n);
+            }
+        }
+        names.truncate(40);
+        for n in &names {
+            r.call("Archive::read_file", || ar.read_file(n).map(|_| ()).map_err(errname));
+        }
+    }
+    let _ = std::fs::remove_file(&path);
+}
